@@ -1,7 +1,7 @@
 (* Props/C05.v -- statements claimed for C05 (Poisson solver), about Model/Poisson.v over R, for EVERY
    solve routine meeting the contract "returns a solution of the system it is given". *)
 From Coq Require Import List Arith Reals.
-From LaPyV Require Import Base.Scalar Base.ListAux Base.Sparse Model.TriaAdj Model.Poisson Proofs.PoissonP.
+From LaPyV Require Import Base.Scalar Base.ListAux Base.Sparse Model.TriaAdj Model.Poisson Proofs.PoissonP Proofs.PoissonSuperP.
 Import ListNotations.
 Open Scope R_scope.
 
@@ -37,3 +37,30 @@ Theorem C05_rejects_wrong_size_rhs : forall solve dim A B l dtup ntup,
   length l <> dim -> poisson Rops solve dim A B (HVector l) dtup ntup = Err ValueError.
 Proof. exact poisson_rejects_wrong_size_h. Qed.
 Print Assumptions C05_rejects_wrong_size_rhs.
+
+(* ---- linear dependence on (right-hand side, Dirichlet data, Neumann data).  Whenever the Dirichlet problem on the free
+   vertices has only the trivial solution ([dirichlet_problem_unique]: at least one pinned vertex per component of a stiffness
+   matrix), three successful calls whose Dirichlet data and right-hand sides B (h - n) combine linearly return vectors that combine
+   in the same way -- for every solver meeting the contract *)
+Theorem C05_result_depends_linearly_on_the_data : forall solve, solve_contract solve ->
+  forall dim A B didx h1 h2 h3 d1 d2 d3 n1 n2 n3 X1 X2 X3 (a b : R),
+  poisson Rops solve dim A B h1 (Some (didx, d1)) n1 = Ok X1 ->
+  poisson Rops solve dim A B h2 (Some (didx, d2)) n2 = Ok X2 ->
+  poisson Rops solve dim A B h3 (Some (didx, d3)) n3 = Ok X3 ->
+  in_range dim A -> Forall (fun i => (i < dim)%nat) didx ->
+  (forall p, (p < length didx)%nat -> nth p d3 0 = a * nth p d1 0 + b * nth p d2 0) ->
+  (forall k, (k < dim)%nat -> ~ In k didx -> rhs_of dim B h3 n3 k = a * rhs_of dim B h1 n1 k + b * rhs_of dim B h2 n2 k) ->
+  dirichlet_problem_unique dim A didx ->
+  forall k, (k < dim)%nat -> nth k X3 0 = a * nth k X1 0 + b * nth k X2 0.
+Proof. exact poisson_superposition. Qed.
+Print Assumptions C05_result_depends_linearly_on_the_data.
+
+(* the right-hand sides do combine linearly, e.g. for per-vertex vectors without Neumann data *)
+Theorem C05_right_hand_sides_combine_linearly : forall dim B (l1 l2 l3 : list R) a b k,
+  (forall j, nth j l3 0 = a * nth j l1 0 + b * nth j l2 0) ->
+  rhs_of dim B (HVector l3) None k = a * rhs_of dim B (HVector l1) None k + b * rhs_of dim B (HVector l2) None k.
+Proof. exact rhs_of_vectors. Qed.
+Print Assumptions C05_right_hand_sides_combine_linearly.
+
+Example C05_uniqueness_hypothesis_is_satisfiable : dirichlet_problem_unique 2 c05_A [0%nat].
+Proof. exact uniqueness_hypothesis_satisfiable. Qed.
